@@ -6,6 +6,12 @@ Tie: the real pytype.pytd.booleq (Eq/And/Or/.simplify) and the model run the sam
 same (term, table) pairs; the model is handed every real set in the order the real object iterates it and
 its result is compared with the real result as nested sets (cases.v + vm_compute, Model.res_same).
 Oracle: brute-force truth tables on the real terms (independent of the model) + a structural normal-form check.
+Consumer (c17_solver.py; model coq/Booleq/Solver.v; theorems pivots_sound_partial/_refuted, equalities_spec,
+solve_never_out_of_fuel, round_shrinks, solve_fixed_point, complete_extends, round_preserves_solutions,
+solve_sound_partial/_refuted, solve_complete_refuted): the real Solver (register_variable/always_true/implies/
+_get_first_approximation/solve) and extract_pivots/extract_equalities against the model on generated scripts, with the
+real set-iteration order handed to the model, plus brute-force oracles (all assignments over the candidate values:
+every value of every solution must survive in solve(); declarative first approximation; fixed point; solve twice).
 """
 import ast
 import hashlib
@@ -775,7 +781,6 @@ def run(res):
       "set.__eq__ as mutual inclusion); iteration order of real sets is an input of the model, not modelled",
       "variables are exactly the names starting with '~' (booleq.py's documented convention); semantics eval is "
       "the property's reading of the terms",
-      "Solver.solve, extract_pivots, extract_equalities (the consumer) are outside the property and not modelled",
       "generator, renderer and differ in harness/props/c17.py; Model.res_same (set comparison inside Coq), "
       "checked live by a canary case in every cases file",
   ]
@@ -795,6 +800,8 @@ def run(res):
       corpus.append((f, json.load(open(os.path.join(cdir, f)))))
     res.extra["corpus_entries"] = len(corpus)
     for f, rep in corpus:
+      if rep.get("kind") not in ("construct", "simplify"):
+        continue                                   # solver / pivots entries: run by c17_solver.run_leg
       v = check_replay(b, rep)
       if v:
         cx.violation(v[0], v[1], rep)
@@ -956,6 +963,11 @@ def run(res):
   res.obligation("correspondence:model-vs-booleq", not mism,
                  "%d disagreements (%d constructor calls, %d simplify pairs compared)" % (
                      len(mism), cx.hist["eq_calls"] + cx.hist["op_calls"], cx.hist["simplify_pairs"]))
+  # ---- the consumer: Solver / extract_pivots / extract_equalities against coq/Booleq/Solver.v
+  import c17_solver  # pylint: disable=import-outside-toplevel
+  t_ph = time.time()
+  c17_solver.run_leg(res, b, common.rng(res.seed, "c17-solver"), level)
+  res.extra["phase_s"]["solver_leg"] = round(time.time() - t_ph, 1)
   res.extra["distribution"] = cx.hist
   res.extra["tables"] = ntab
   res.extra["pool_terms"] = len(p.defs)
@@ -1004,6 +1016,9 @@ def replay(res, path):
   b = booleq()
   d = json.load(open(path))
   rep = d["replay"]
+  if rep.get("kind") in ("solver", "pivots"):
+    import c17_solver  # pylint: disable=import-outside-toplevel
+    return c17_solver.replay_solver(res, b, rep)
   t = build(b, rep["recipe"])
   print("recipe :", json.dumps(rep["recipe"]))
   print("term   :", show(canon(b, t)))
